@@ -151,6 +151,38 @@ def normalize_range_chunks(events, env):
     return out
 
 
+def normalize_views(events, m1):
+    """The length of an owning view `{ptr + b, len}` in one form: `E.saturating_sub(b)` is `E - b` (that the difference
+    does not underflow is an OVF / CLAMP matter), and a clamp applied twice to the same length is applied once
+    (`min(min(x, L), L')` with L, L' the same canonical LEN)."""
+    import copy
+
+    def f(x):
+        if x[0] == "call" and x[1] == "min" and len(x[2]) == 2:
+            for a, l in ((x[2][0], x[2][1]), (x[2][1], x[2][0])):
+                a = unref(a)
+                if a[0] == "call" and a[1] == "min" and len(a[2]) == 2:
+                    lc = m1.canon(unref(l))
+                    for y, l2 in ((a[2][0], a[2][1]), (a[2][1], a[2][0])):
+                        if m1.canon(unref(l2)) == lc:
+                            return ("call", "min", (y, l2))
+        return None
+    out = []
+    for e in events:
+        if is_view(e) and len(e.args) >= 2:
+            ln = rewrite(unref(e.args[1]), f)
+            if ln[0] == "call" and ln[1] == "saturating_sub" and len(ln[2]) == 2:
+                ln = ("bin", "Sub", ln[2][0], ln[2][1])
+            if ln != unref(e.args[1]):
+                e2 = copy.copy(e)
+                e2.info = dict(e.info)
+                e2.args = (e.args[0], ln) + tuple(e.args[2:])
+                out.append(e2)
+                continue
+        out.append(e)
+    return out
+
+
 class Unit:
     def __init__(self, m1, world, kind, body, self_adt):
         self.m1 = m1
@@ -172,7 +204,7 @@ class Unit:
         for b in self.bodies:
             for e in env.flat_events(b, self_adt, world):
                 self.events.append(e)
-        self.events = normalize_range_chunks(normalize_accesses(self.events), env)
+        self.events = normalize_views(normalize_range_chunks(normalize_accesses(self.events), env), m1)
         self.label = "%s|%s" % (world["name"], kind)
 
     def result(self):
